@@ -14,13 +14,22 @@ Proof.
   destruct (is_absolute n); reflexivity.
 Qed.
 
+Lemma names_path_asis sty c l : s_origin sty = None -> p_origin c = None -> p_relativize_to c = None ->
+  map_res (name_path sty c) l = Ok l.
+Proof.
+  intros H1 H2 H3. induction l as [|n l IH]; [reflexivity|]. cbn [map_res].
+  rewrite name_path_asis by assumption. cbn [bind]. rewrite IH. reflexivity.
+Qed.
+
 Lemma expects_asis sty c : s_origin sty = None -> p_origin c = None -> p_relativize_to c = None ->
   forall fs vs, Forall2 val_ok fs vs -> expects sty c fs vs = Ok vs.
 Proof.
   intros H1 H2 H3. induction 1 as [|f v fs vs Hv _ IH]; [reflexivity|].
   cbn [expects]. rewrite IH.
   destruct f, v; cbn [val_ok] in Hv; try contradiction; cbn [expect bind]; try reflexivity.
-  rewrite name_path_asis by assumption. reflexivity.
+  - rewrite name_path_asis by assumption. reflexivity.
+  - rewrite names_path_asis by assumption. reflexivity.
+  - rewrite name_path_asis by (assumption || reflexivity). reflexivity.
 Qed.
 
 Theorem record_roundtrip_asis sty c fs chk vs text rest fw tw :
@@ -91,6 +100,10 @@ Definition val_encodable (f : tfield) (v : tval) : Prop :=
   | FIntC maxv, VInt z => 0 <= z <= maxv
   | FSigTime, VInt z => 0 <= z <= 4294967295
   | FOct16, VInt z => 0 <= z <= 65535
+  | FQOpt, VBytes b => zlen b <= 255
+  | FHexStr, VBytes b => zlen b <= 255
+  | FB64Tok maxlen, VBytes b => zlen b <= maxlen
+  | FB64RestOpt, VBytes b => zlen b <= 65535
   | _, _ => True
   end.
 
@@ -114,7 +127,7 @@ Qed.
 Theorem parse_field_encodable c f st raw st' v :
   parse_field c f st = Ok (raw, st') -> ctor_field f raw = Ok v -> val_encodable f v.
 Proof.
-  destruct f as [maxv| |tokmax ctormax ne| | |sc| |v6| | | | | |k| |maxc| |en| |]; cbn [parse_field]; intros H Hc.
+  destruct f as [maxv| |tokmax ctormax ne| | |sc| |v6| | | | | |k| |maxc| |en| | | | |bmax| | |]; cbn [parse_field]; intros H Hc.
   - unfold get_uint, as_uint in H.
     destruct (get_unescaped st) as [[t s1]| |]; cbn [bind fst snd] in H; try discriminate.
     destruct (as_int t 10) as [z| |]; cbn [bind fst snd] in H; try discriminate.
@@ -138,17 +151,17 @@ Proof.
   - destruct v; exact Logic.I.
   - destruct v; exact Logic.I.
   - destruct v; exact Logic.I.
-  - destruct raw as [z0|b|n0|l0|w0]; cbn [ctor_field] in Hc; try (inversion Hc; subst; exact Logic.I).
+  - destruct raw as [z0|b|n0|l0|w0|ns0]; cbn [ctor_field] in Hc; try (inversion Hc; subst; exact Logic.I).
     destruct (zlen b >? 255) eqn:E; try discriminate. inversion Hc; subst. cbn [val_encodable]. lia.
   - destruct (get_string st 0) as [[t s1]| |]; cbn [bind fst snd] in H; try discriminate. inversion H; subst.
     cbn [ctor_field] in Hc.
     destruct (alg_from_text t) as [z| |] eqn:E; cbn [bind] in Hc; try discriminate. inversion Hc; subst.
     cbn [val_encodable]. eapply alg_from_text_range; eauto.
-  - destruct raw as [z0|b|n0|l0|w0]; cbn [ctor_field] in Hc; try (inversion Hc; subst; exact Logic.I).
+  - destruct raw as [z0|b|n0|l0|w0|ns0]; cbn [ctor_field] in Hc; try (inversion Hc; subst; exact Logic.I).
     destruct ((zlen b >? 255) || is_nil b || negb (forallb is_alnum b)) eqn:E; try discriminate.
     inversion Hc; subst. cbn [val_encodable]. lia.
   - destruct v; exact Logic.I.
-  - destruct raw as [z0|b|n0|l0|w0]; cbn [ctor_field] in Hc; try (inversion Hc; subst; exact Logic.I).
+  - destruct raw as [z0|b|n0|l0|w0|ns0]; cbn [ctor_field] in Hc; try (inversion Hc; subst; exact Logic.I).
     destruct (zlen b >? 255) eqn:E; try discriminate. inversion Hc; subst. cbn [val_encodable]. lia.
   - destruct (get_string st 0) as [[t s1]| |]; cbn [bind fst snd] in H; try discriminate.
     destruct (enum_parse k t) as [z| |]; cbn [bind fst snd] in H; try discriminate. inversion H; subst.
@@ -170,6 +183,16 @@ Proof.
     destruct (as_int t 8) as [z| |]; cbn [bind fst snd] in H; try discriminate.
     destruct ((z <? 0) || (z >? max16)) eqn:E; cbn [bind fst snd] in H; try discriminate.
     inversion H; subst. cbn [ctor_field] in Hc. inversion Hc; subst. cbn [val_encodable]. unfold max16 in E. lia.
+  - destruct raw as [z0|b|n0|l0|w0|ns0]; cbn [ctor_field] in Hc; try (inversion Hc; subst; exact Logic.I).
+    destruct (zlen b >? 255) eqn:E; try discriminate. inversion Hc; subst. cbn [val_encodable]. lia.
+  - destruct raw as [z0|b|n0|l0|w0|ns0]; cbn [ctor_field] in Hc; try (inversion Hc; subst; exact Logic.I).
+    destruct (zlen b >? 255) eqn:E; try discriminate. inversion Hc; subst. cbn [val_encodable]. lia.
+  - destruct raw as [z0|b|n0|l0|w0|ns0]; cbn [ctor_field] in Hc; try (inversion Hc; subst; exact Logic.I).
+    destruct (zlen b >? bmax) eqn:E; try discriminate. inversion Hc; subst. cbn [val_encodable]. lia.
+  - destruct v; exact Logic.I.
+  - destruct v; exact Logic.I.
+  - destruct raw as [z0|b|n0|l0|w0|ns0]; cbn [ctor_field] in Hc; try (inversion Hc; subst; exact Logic.I).
+    destruct (zlen b >? 65535) eqn:E; try discriminate. inversion Hc; subst. cbn [val_encodable]. lia.
 Qed.
 
 (* names accepted from text satisfy the DNS limits (hence to_wire with an origin cannot fail on length) *)
